@@ -108,13 +108,17 @@ def lookup_names(labels):
 class C13(Prop):
   id = 'C13'
   lean_module = 'DK.Props.C13'
+  uses_t1 = True      # T1s regenerates DK/Gen/Sets/*.lean from the current source before the bridge is audited
+  bridge_sets = ['DK.BridgeSets.DeviceSet_shape', 'DK.BridgeSets.DeviceSet_partition', 'DK.BridgeSets.DeviceSet_slices',
+                 'DK.BridgeSets.BaseDevice_map', 'DK.BridgeSets.BaseDevice_map_tree']      # T1s: set-level glue (vk/translate_sets.py, DK/Lemmas/BridgeSets/*.lean)
+  bridge = bridge_sets
   theorems = {'DK.Props.C13': ['DK.C13.' + t for t in THEOREMS],
               'DK.Props.C13find': ['DK.C13.' + t for t in FIND_THEOREMS]}
   rule = ('random rooted ordered trees (depth <= 3 quick / 4 thorough, fan-out <= 3, nested sets, MFDeviceSet / TwoRatioMFDeviceSet adaptors with 1..3 '
           'conduits, SubBalancedDeviceSet nodes), horizon 1..6 (..10); leaf ids with the regex-special characters Device accepts (+ ( ) [ ]); sibling pairs '
           '`x_e` / `x.e` that differ only in the separator; flow matrices flat and shaped; non-trivial: some node has children with '
           'different row counts, at least one adaptor, all rows of the flow matrix pairwise different')
-  sizes = {'quick': 400, 'thorough': 10000}
+  sizes = {'quick': 400, 'thorough': 8000}
   assumptions = ['find(regexp) is checked by the oracle only (the model keeps the predicate abstract: Tree.findLabels; no regular expressions); get(name) is tied to '
                  'Tree.getCandidates (plain string suffix) by T2 ops treex.find / treex.get',
                  'oracle: labels and leaf objects recomputed by own recursion over .devices; row ownership observed by perturbing one row and '
@@ -129,6 +133,11 @@ class C13(Prop):
     out = []
     for _ in range(count):
       t, n = X.gen_shape_tree(rng, tier, want_mf=(True if rng.random() < 0.8 else None))
+      if rng.random() < 0.12:
+        # the root itself is an adaptor (or, rarely, a nested set taken as the root): `MFDeviceSet(dev, flows).map(...)`
+        subs = [b for b in gen.tree_leaves(t) if b['k'] == 'mf' and len(b['flows']) >= 2] or [b for b in gen.tree_leaves(t) if b['k'] == 'mf']
+        if subs:
+          t = copy.deepcopy(rng.choice(subs))
       R = gen.tree_rows(t)
       q = rng.random()
       if q < 0.3:
@@ -142,14 +151,15 @@ class C13(Prop):
           seen.add(row); S.append([C.fs(x) for x in row])
       else:
         S = gen.tree_flow(rng, t, n)
-      case = {'tree': t, 'n': n, 'S': S}
-      if rng.random() < 0.45 and separator_sibling(rng, t):
+      case = {'tree': t, 'n': n, 'S': S, 'hist': rng.random() < 0.5,
+              '_layout': {'mat': rng.choice(X.MAT_FORMS), 'flat': rng.choice(['flat', 'flat-strided'])}}
+      if t['k'] == 'node' and rng.random() < 0.45 and separator_sibling(rng, t):
         case['sep'] = True
         if len(case['S']) != gen.tree_rows(t):     # a leaf was inserted: one more row
           case['S'] = X.perm_flow(gen.tree_rows(t), n)
       if decorate_ids(rng, t, rng.choice([0.0, 0.3, 0.6])):
         case['special'] = True
-      if rng.random() < self.dup_rate and make_duplicate(rng, t):
+      if t['k'] == 'node' and rng.random() < self.dup_rate and make_duplicate(rng, t):
         ls = labels_of(t)
         if len(set(ls)) != len(ls):      # same sibling ids, same qualified ids (a leaf next to an adaptor of the same id stays distinct)
           case['dup'] = True
@@ -175,12 +185,13 @@ class C13(Prop):
       Op({'op': 'tree.rows', 'tree': t, 'n': n}, lambda: [len(dev.leaf_devices())], 1e-9, 'number of leaf entries vs rows'),
       Op({'op': 'treex.labels', 'tree': t, 'n': n}, lambda: X.enc_labels([k for k, _ in dev.leaf_devices()]), 1e-9, 'labels (character codes, in order)'),
     ]
+    lay = case.get('_layout', {'mat': 'C', 'flat': 'flat'})
     for shp in ('mat', 'flat'):
-      S = X.shaped(case['S'], shp)
+      S = X.relayout(build.arr(case['S']), lay[shp])     # same logical matrix, another memory layout
       ops += [
-        Op({'op': 'treex.map', 'tree': t, 'n': n, 'S': case['S']}, lambda S=S: X.enc_map(list(dev.map(S))), 1e-9, 'map (%s flow): label codes + row' % shp),
+        Op({'op': 'treex.map', 'tree': t, 'n': n, 'S': case['S']}, lambda S=S: X.enc_map(list(dev.map(S))), 1e-9, 'map (%s flow, %s layout): label codes + row' % (shp, lay[shp])),
         Op({'op': 'treex.map', 'tree': t, 'n': n, 'S': case['S']}, lambda S=S: X.enc_map([(l, r) for l, _, r in dev.mapDevices(S)]), 1e-9,
-           'mapDevices (%s flow): label codes + row' % shp),
+           'mapDevices (%s flow, %s layout): label codes + row' % (shp, lay[shp])),
       ]
     # lookup by qualified-id suffix: candidate rows (Tree.getCandidates) and the row get() returns (their head)
     names = lookup_names(labels_of(t))
@@ -197,16 +208,71 @@ class C13(Prop):
 
   # ------------------------------------------------------------------ oracle (implementation only)
   def oracle(self, case):
+    t = case['tree']
+    fails = self._check(build.build_tree(t), case, '', '')
+    if not fails and case.get('hist'):
+      dev = build.build_tree(t)
+      note = self._history(dev, case)
+      self.stats['history_cases'] = self.stats.get('history_cases', 0) + 1
+      fails = self._check(dev, case, 'history-', note)
+    return fails[:2]
+
+  def _history(self, dev, case):
+    """use the parts before the whole, and mutate what the library handed back: every leaf / wrapped device / conduit,
+    then every adaptor and nested set (bottom-up), then the root are enumerated, mapped and looked up; each returned
+    list is reversed and shortened, each dict(map) cleared. Nothing of this may change what is answered afterwards."""
+    n_ = X.np()
+    n = case['n']
+    blocks = X.impl_blocks(dev)
+    objs = []
+    for off, k, blk, path in blocks:
+      if X.is_adaptor(blk):
+        objs += [blk.to_dict()['device']] + list(blk.devices) + [blk]
+      else:
+        objs.append(blk)
+    objs += [node for _, _, node in reversed(X.impl_nodes(dev))]
+    for o in objs:
+      k = int(o.shape[0])
+      x = n_.arange(k*n, dtype=float).reshape(k, n) + 1
+      L = o.leaf_devices()
+      list(o.map(x)); list(o.mapDevices(x.reshape(-1)))
+      o.find('.*')
+      if L:
+        o.get(L[0][0])
+      L.reverse()
+      if L:
+        L.pop()
+      L.append(('zz', None))
+      d = dict(o.map(x)); d.clear()
+    return (' | after every leaf, wrapped device, conduit, adaptor and nested set (bottom-up) and then the root had been enumerated / mapped / looked up once '
+            'and each list returned by leaf_devices() had been reversed, shortened and appended to by the caller')
+
+  def _check(self, dev, case, kp, note):
     n_ = X.np()
     t, n = case['tree'], case['n']
-    dev = build.build_tree(t)
     blocks = X.impl_blocks(dev)
     R = sum(k for _, k, _, _ in blocks)
-    where = ' | n=%d tree=%s' % (n, short(t))
+    where = note + ' | n=%d tree=%s' % (n, short(t))
     fails = []
 
     def fail(kind, detail):
-      fails.append({'key': {'cls': 'BaseDevice', 'kind': kind}, 'detail': detail + where})
+      fails.append({'key': {'cls': 'BaseDevice', 'kind': kp + kind}, 'detail': detail + where})
+
+    # every nested set / adaptor taken on its own enumerates its own rows (labels relative to itself, same leaf objects)
+    for sub in [node for _, _, node in X.impl_nodes(dev)[1:]] + [b[2] for b in blocks if X.is_adaptor(b[2]) and b[2] is not dev]:
+      el = X.impl_labels(sub)
+      eo = []
+      for _, _, blk, _ in X.impl_blocks(sub):
+        eo += list(blk.devices) if X.is_adaptor(blk) else [blk]
+      try:
+        Ls = sub.leaf_devices()
+        Ms = list(sub.map(n_.arange(len(el)*n, dtype=float).reshape(len(el), n)))
+      except Exception as e:
+        fail('labels', 'leaf_devices()/map() of the nested %s %r raised %s: %s' % (type(sub).__name__, sub.id, type(e).__name__, str(e)[:120])); return fails
+      if [k for k, _ in Ls] != el or len(Ls) != int(sub.shape[0]) or any(a[1] is not b for a, b in zip(Ls, eo)) or [k for k, _ in Ms] != el:
+        fail('labels', 'the nested %s %r (%d rows) enumerates %s / maps %s; by recursion over .devices its rows are %s'
+             % (type(sub).__name__, sub.id, int(sub.shape[0]), [k for k, _ in Ls], [k for k, _ in Ms], el))
+        return fails
 
     # expected labels and leaf objects by own recursion
     exp_labels = X.impl_labels(dev)
@@ -229,20 +295,22 @@ class C13(Prop):
 
     # map / mapDevices: label k <-> row k
     S = build.arr(case['S']) if len(case['S']) == R else build.arr(X.perm_flow(R, n))
-    for shp in ('mat', 'flat'):
-      Sx = S if shp == 'mat' else S.reshape(-1)
+    for shp, Sx in X.flow_variants(S) + ([('as built (%s)' % S.dtype, S)] if S.dtype != float else []):
+      keep = Sx.copy()
       try:
         M = list(dev.map(Sx)); MD = list(dev.mapDevices(Sx))
       except Exception as e:
-        fail('map', 'map/mapDevices raised %s: %s on a %s flow of shape %s' % (type(e).__name__, str(e)[:120], shp, S.shape))
+        fail('map', 'map/mapDevices raised %s: %s on a flow of shape %s given in %s' % (type(e).__name__, str(e)[:120], S.shape, shp))
         return fails
+      if not (Sx == keep).all():
+        fail('map', 'map/mapDevices changed the caller\'s flow array (%s)' % shp); return fails
       if len(M) != R or len(MD) != R:
         fail('map', 'map yields %d and mapDevices %d entries for %d rows' % (len(M), len(MD), R)); return fails
       for k in range(R):
         for nm, lab, row in (('map', M[k][0], M[k][1]), ('mapDevices', MD[k][0], MD[k][2])):
           row = n_.array(row, dtype=float)
           if lab != exp_labels[k] or row.shape != (n,) or not (row == S[k]).all():
-            fail('map', '%s entry %d is (%r, %s); expected (%r, %s) = row %d of S=%s (%s)' % (nm, k, lab, row.tolist(), exp_labels[k], S[k].tolist(), k, json.dumps(case['S']), shp))
+            fail('map', '%s entry %d is (%r, %s); expected (%r, %s) = row %d of S=%s given in %s' % (nm, k, lab, row.tolist(), exp_labels[k], S[k].tolist(), k, json.dumps(case['S']), shp))
             return fails
         if MD[k][1] is not exp_objs[k]:
           fail('map', 'mapDevices entry %d (%s) does not carry the leaf object of row %d' % (k, exp_labels[k], k)); return fails
